@@ -147,11 +147,44 @@ func verifyCase(t *testing.T, r *rig.Rig, reg map[string]map[string]string, g fu
 		ver = op.NewJWTProfileVerifierKeySet(issKeySet{calls: &ksCalls, reg: reg}, cfg.issuer, cfg.maxAge, cfg.offset)
 	}
 	r.Core.Reset(r.Core.St)
-	var req *oidc.JWTTokenRequest
-	var err error
-	pan := engine.Bubble(t, now.Sub(engine.Epoch), func() {
-		req, err = op.VerifyJWTAssertion(context.Background(), tok, ver)
+	var obs verifyObs
+	obs.pan = engine.Bubble(t, now.Sub(engine.Epoch), func() {
+		obs.req, obs.err = op.VerifyJWTAssertion(context.Background(), tok, ver)
 	})
+	if variant == "keyset" {
+		obs.lookups = ksCalls
+	} else {
+		obs.lookups = keyLookups(r)
+	}
+	return evalVerify(a, tok, expect, rule, variant, cfg.issuer, obs, false, func() string {
+		return fmt.Sprintf("assertion header=%+v payload=%s verifier{issuer=%s maxAge=%s offset=%s %s} now=T0+%s", headerOf(tok), parseCompact(tok).payload, cfg.issuer, cfg.maxAge, cfg.offset, variant, g("phase"))
+	})
+}
+
+// keyLookups: the (kid|client id) pairs the storage was asked for since the last Reset.
+func keyLookups(r *rig.Rig) []string {
+	var out []string
+	for _, j := range r.Core.Calls("GetKeyByIDAndClientID") {
+		out = append(out, strings.Join(j.Args, "|"))
+	}
+	return out
+}
+
+// verifyObs is what one op.VerifyJWTAssertion call did.
+type verifyObs struct {
+	req     *oidc.JWTTokenRequest
+	err     error
+	pan     string
+	lookups []string // "kid|id" of every key lookup made during the call (storage journal or caller's key set)
+}
+
+// evalVerify judges ONE VerifyJWTAssertion call against the expectation (expect, rule) the
+// reference predicate gave for that assertion alone. It is shared by the single-call part
+// "verify" and by every step of the part "history-verify".
+// laterCall: the verifier instance has served calls before; then a lookup-free acceptance is
+// not objected to (an instance may remember a key it obtained for exactly this (iss, kid)).
+func evalVerify(a assertionT, tok string, expect want, rule, variant, vIssuer string, obs verifyObs, laterCall bool, mk func() string) engine.Result {
+	req, err, pan := obs.req, obs.err, obs.pan
 	site := "/verify-" + variant
 	if pan != "" {
 		// C09's business; nothing was accepted
@@ -163,9 +196,6 @@ func verifyCase(t *testing.T, r *rig.Rig, reg map[string]map[string]string, g fu
 	outcome := "accepted"
 	if err != nil {
 		outcome = "rejected:" + errClass(err)
-	}
-	mk := func() string {
-		return fmt.Sprintf("assertion header=%+v payload=%s verifier{issuer=%s maxAge=%s offset=%s %s} now=T0+%s", headerOf(tok), parseCompact(tok).payload, cfg.issuer, cfg.maxAge, cfg.offset, variant, g("phase"))
 	}
 	if err != nil && expect != mustAccept && req == nil {
 		return engine.OK(rule, outcome)
@@ -191,24 +221,16 @@ func verifyCase(t *testing.T, r *rig.Rig, reg map[string]map[string]string, g fu
 		return engine.Bad(rule, outcome, "C14/identity-differs-from-iss"+site, fmt.Sprintf("returned issuer %q, signed iss %q: %s", req.Issuer, a.iss, desc))
 	case req.Subject != a.sub:
 		return engine.Bad(rule, outcome, "C14/subject-differs-from-signed"+site, fmt.Sprintf("returned subject %q, signed sub %q: %s", req.Subject, a.sub, desc))
-	case !sameAud(req.Audience, a.aud, cfg.issuer):
+	case !sameAud(req.Audience, a.aud, vIssuer):
 		return engine.Bad(rule, outcome, "C14/audience-differs-from-signed"+site, fmt.Sprintf("returned audience %v: %s", req.Audience, desc))
 	}
 	// the key must have been looked up for iss (and for nobody else)
-	var lookups []string
-	if variant == "keyset" {
-		lookups = ksCalls
-	} else {
-		for _, j := range r.Core.Calls("GetKeyByIDAndClientID") {
-			lookups = append(lookups, strings.Join(j.Args, "|"))
-		}
-	}
-	for _, l := range lookups {
+	for _, l := range obs.lookups {
 		if l != a.kid+"|"+a.iss {
 			return engine.Bad(rule, outcome, "C14/key-looked-up-for-other-than-iss"+site, fmt.Sprintf("key lookup %q, expected %q: %s", l, a.kid+"|"+a.iss, desc))
 		}
 	}
-	if len(lookups) == 0 {
+	if len(obs.lookups) == 0 && !laterCall {
 		return engine.Bad(rule, outcome, "C14/accepted-without-key-lookup"+site, "accepted without asking for the key of iss: "+desc)
 	}
 	return engine.OK(rule, outcome)
